@@ -47,6 +47,10 @@ class Node(param.Parameterized):
     def m_sub2(self):
         self.calls.append(('m_sub2', None if self.sub is None else (self.sub.v, self.sub.w)))
 
+    @param.depends('a:bounds', watch=True)
+    def m_bounds(self):
+        self.calls.append(('m_bounds', self.param.a.bounds))
+
     @param.depends('sub.inner.v', watch=True)
     def m_deep(self):
         inner = None if self.sub is None else self.sub.inner
@@ -205,6 +209,8 @@ class CopyWorld:
             if after['a'] != before['a'] or after['b'] != before['b']:
                 exp.append('m_ab')
             if K is not Plain:
+                if after['a_bounds'] != before['a_bounds']:
+                    exp.append('m_bounds')
                 bs, as_ = before['sub'], after['sub']
                 if bs is not None and as_ is not None:
                     if bs[0] != as_[0]:
